@@ -128,6 +128,8 @@ pub enum Edit {
     Rep { file: usize, idx: usize, variant: u8 },
     /// A character-level edit of a tag line (C02), see `tag_char_edits`.
     TagChar { file: usize, idx: usize, kind: u8 },
+    /// The file's line ends are converted (LF ↔ CR LF): every line changes, none in its text.
+    FlipEol { file: usize },
 }
 
 impl Edit {
@@ -137,6 +139,7 @@ impl Edit {
             Edit::Del { file, idx } => json!({"del": [file, idx]}),
             Edit::Rep { file, idx, variant } => json!({"rep": [file, idx, variant]}),
             Edit::TagChar { file, idx, kind } => json!({"tagchar": [file, idx, kind]}),
+            Edit::FlipEol { file } => json!({"flipeol": [file]}),
         }
     }
     pub fn from_json(v: &Value) -> Option<Edit> {
@@ -145,6 +148,9 @@ impl Edit {
         }
         if let Some(a) = v.get("del").and_then(Value::as_array) {
             return Some(Edit::Del { file: a[0].as_u64()? as usize, idx: a[1].as_u64()? as usize });
+        }
+        if let Some(a) = v.get("flipeol").and_then(Value::as_array) {
+            return Some(Edit::FlipEol { file: a[0].as_u64()? as usize });
         }
         if let Some(a) = v.get("tagchar").and_then(Value::as_array) {
             return Some(Edit::TagChar { file: a[0].as_u64()? as usize, idx: a[1].as_u64()? as usize, kind: a[2].as_u64()? as u8 });
@@ -162,6 +168,7 @@ fn is_blank(s: &str) -> bool {
 pub fn edits(files: &[LFile]) -> Vec<Edit> {
     let mut v = Vec::new();
     for (fi, f) in files.iter().enumerate() {
+        v.push(Edit::FlipEol { file: fi });
         for pos in 0..=f.lines.len() {
             let prev = pos.checked_sub(1).map(|i| &f.lines[i]);
             let prev_plain = prev.is_some_and(|l| matches!(l.label, Label::Content | Label::Outside));
@@ -334,6 +341,9 @@ pub fn apply(files: &[LFile], edit: &Edit, counter: usize) -> Vec<LFile> {
         }
         Edit::Del { file, idx } => {
             files[*file].lines.remove(*idx);
+        }
+        Edit::FlipEol { file } => {
+            files[*file].crlf = !files[*file].crlf;
         }
         Edit::TagChar { file, idx, kind } => {
             let l = &mut files[*file].lines[*idx];
